@@ -968,7 +968,7 @@ def boundaryConditionsTerm2D(BC: BoundaryConditions2D):
     q = int_range(0, 3)
     ii[q] = BC.domain.corners
     jj[q] = BC.domain.corners
-    s[q] = np.max(BC.top.b/2 + BC.top.a/dy_end)
+    s[q] = 1.0
     BCRHS[BC.domain.corners] = 0.0
 
     if (not BC.top.periodic) and (not BC.bottom.periodic):
@@ -1400,7 +1400,7 @@ def boundaryConditionsTermPolar2D(BC: BoundaryConditions2D):
     q = int_range(0, 3)
     ii[q] = BC.domain.corners
     jj[q] = BC.domain.corners
-    s[q] = np.max(BC.top.b/2 + BC.top.a/dy_end)
+    s[q] = 1.0
     BCRHS[BC.domain.corners] = 0.0
 
     if (not BC.top.periodic) and (not BC.bottom.periodic):
